@@ -196,3 +196,14 @@ def random_traj(rng, n_frames, n_atoms, cell="random", top=None, spread=1.0, per
         t.unitcell_lengths = ls.astype(np.float32)
         t.unitcell_angles = as_.astype(np.float32)
     return t
+
+
+def with_asan_slice(gen, every, name="asan"):
+    """Yield every case; additionally every `every`-th one a second time tagged for the sanitizer worker group `name`
+    (the ASan/UBSan-instrumented build rides on a sub-stream of the same workload; 0/None disables)."""
+    for k, c in enumerate(gen):
+        yield c
+        if every and k % every == 0:
+            d = dict(c)
+            d["group"] = name
+            yield d
